@@ -1401,6 +1401,10 @@ class XMLSchemaBase(XsdValidator, ElementPathMixin[Union[SchemaType, XsdElement]
                     return
 
             if elem is not resource.root and ancestors:
+                # Remove the xmlns contexts of the previous chunk, that otherwise
+                # are restored over the declarations in scope for this element
+                context.converter.set_xmlns_context(elem, context.level)
+
                 # Set the namespace declarations in scope for the element
                 namespaces.clear()
                 namespaces.update(root_namespaces)
